@@ -25,6 +25,16 @@ CHECKS = {
             "Scores pooled over an inserted slice whose cases are missing in one input are bit-identical with and without it for every metric, the all-missing slice reports NaN, no metric raises; "
             "all missing encodings read back as NaN exactly at the missing cells and give identical scores.",
             "Scores are taken from verif.output.Standard._get_x_y (the code path of -type csv) on in-memory inputs for the insert oracle.", "DESIGN.md section 5, C04"),
+    "C11": ("Hypothesis-generated boundary-heavy datasets; differential against integer civil-calendar bucket arithmetic + partition laws + exhaustive enumeration of date conversions 1900-2100",
+            "Axis values and the cases of every slice of all 16 -x dimensions are compared with the model's buckets; slice counts/weighted means add up to the pooled values; csv rows and labels through the real readers; "
+            "all 73414 calendar days are enumerated for the conversion functions.",
+            DS_NOTE + " Day-of-year numbering after Feb 28 in non-leap years is not judged.", "DESIGN.md section 5, C11"),
+    "C14": ("Hypothesis-generated datasets with a climatology input; differential against the dictionary model (anomalies at the same coordinates) + metamorphic relation '-c X' vs 'X as extra input' through files",
+            "Anomaly values, dropped cases (missing climatology, non-finite quotient), untouched non-obs/fcst fields, and the absence of the climatology from inputs/legend/header are checked for -c and -C.",
+            DS_NOTE, "DESIGN.md section 5, C14"),
+    "C18": ("model-based request histories (Hypothesis operation sequences + exhaustive sequences up to length 3) with invariants after every step: fresh-object differential, snapshots of returned arrays and of input data; repeated commands",
+            "After every request of a generated history the result equals that of a freshly built dataset, earlier results and the inputs' arrays are unchanged; all 5655 sequences of length <=3 over a 12-request menu on 3 datasets are enumerated; commands repeated twice print the same output.",
+            "In-memory inputs keep arrays as attributes (like verif.input.Text). PIT randomisation with x0/x1 is a listed finding and is generated in its own campaign.", "DESIGN.md section 5, C18"),
     "C07": ("exhaustive enumeration of value/threshold order relations + Hypothesis random floats against a plain-comparison oracle",
             "Complete enumeration of the order relations a value can have to 1-3 thresholds for all eight bin types (scalar, array, "
             "apply_threshold, 2x2 cells, event probabilities, partition laws) plus random float cases; decides the property on the "
